@@ -45,6 +45,15 @@ Set(k, e) ==
     /\ act' = [op |-> "Set", k |-> k, e |-> e] /\ dirty' = TRUE
     /\ UNCHANGED <<disk, attached, committedView, exported>>
 
+\* the entry the index handed out is completed in place (metadata / hash / loaded flag filled in later on the very same
+\* object) and stored again under its key: as good as setting a new value
+SetInPlace(k, e) ==
+    /\ Tick /\ live[k] # Nil
+    /\ e.hash = "dirhash" => k \in LazyDirs
+    /\ live' = [live EXCEPT ![k] = e] /\ rows' = [rows EXCEPT ![k] = e]
+    /\ act' = [op |-> "SetInPlace", k |-> k, e |-> e] /\ dirty' = TRUE
+    /\ UNCHANGED <<disk, attached, committedView, exported>>
+
 Del(k) ==
     /\ Tick /\ live[k] # Nil
     /\ live' = [live EXCEPT ![k] = Nil] /\ rows' = [rows EXCEPT ![k] = Nil]
@@ -103,6 +112,7 @@ Export(kind) ==
 
 Next ==
     \/ \E k \in Keys, e \in Entries : Set(k, e)
+    \/ \E k \in Keys, e \in Entries : SetInPlace(k, e)
     \/ \E k \in Keys : Del(k)
     \/ \E k \in Keys, e \in Entries : Elsewhere(k, e)
     \/ Iter \/ Commit \/ Reopen \/ Attach
